@@ -125,6 +125,9 @@ resvars == <<chain, i1, i0, lastKind, status>>
 InitWith(ch) ==
     /\ chain = ch /\ lastKind = "" /\ i1 = 2 /\ i0 = 1
     /\ status = IF Len(ch) < 2 THEN "done" ELSE "running"
+StartWith(ch) ==
+    /\ chain' = ch /\ lastKind' = "" /\ i1' = 2 /\ i0' = 1
+    /\ status' = IF Len(ch) < 2 THEN "done" ELSE "running"
 
 Apply(res) ==
     /\ lastKind' = res.kind
